@@ -3,8 +3,11 @@ package main
 import (
 	"bytes"
 	stdgzip "compress/gzip"
+	"encoding/json"
 	"fmt"
 	"io"
+	"os"
+	"path/filepath"
 	"strings"
 	"sync"
 	"time"
@@ -55,6 +58,12 @@ type guarded struct {
 	hung     bool
 }
 
+// codecsOut: where a hang is reported (inflight.json); set by runCodecs
+var codecsOut string
+
+// lastInput: description of the stream being decoded (for the hang report)
+var lastInput string
+
 func guard(f func() ([]byte, error)) guarded {
 	ch := make(chan guarded, 1)
 	go func() {
@@ -70,7 +79,14 @@ func guard(f func() ([]byte, error)) guarded {
 	select {
 	case g := <-ch:
 		return g
-	case <-time.After(20 * time.Second):
+	case <-time.After(8 * time.Second):
+		// a decoder that does not return keeps its goroutine (and whatever it allocates) for the rest of the
+		// process: report the input and stop the family here — the orchestrator turns this into the replay
+		if codecsOut != "" {
+			b, _ := json.Marshal(map[string]interface{}{"family": "codecs", "kind": "hang", "what": "a decode did not return within 8 s", "input": lastInput})
+			_ = os.WriteFile(filepath.Join(codecsOut, "inflight.json"), b, 0o644)
+			os.Exit(3)
+		}
 		return guarded{hung: true}
 	}
 }
@@ -92,6 +108,7 @@ func highRatioBlock(exts int, last byte) []byte {
 
 // codecs family (C12)
 func runCodecs(seed uint64, n int, tier string, out string, replay string) {
+	codecsOut = out
 	rnd := hx.NewRand(seed)
 	sum := hx.NewSummary("codecs", seed)
 	sum.Rule = "Coq-evaluated cases: (a) level handling — a profile configured with each value of {0..13, 99, 2^31-1, 2^31, 2^32-1, 2^32+5} through compress.Reset; pike's gzip/brotli output for a probe body is compared with the reference encoders at every level to identify the level in effect; (b) decoder dispatch for the five documented encodings, identity and unsupported names; (c) LZ4 blocks — encoder outputs for n small bodies, hand-made high-ratio blocks (0..6 length-extension bytes: up to 1.5 KiB from 11 bytes), truncated blocks — pike's LZ4Decode vs the block-decoder model. Go-side only (volume): round trips of bodies 0 B..1 MiB (random, text, zeros, pattern) through pike's gzip/brotli at levels -1..12 decoded by pike AND by the reference decoders; all five pike decoders on reference-encoded streams incl. 1 MiB of zeros; 200 mutated streams per decoder under recover + 20 s watchdog; structured valid streams (multi-member / header-field / stored / huffman-only gzip, multi-frame and checksummed zstd, brotli at several qualities and window sizes and with flushes, literal-only snappy, LZ4 HC block) must be restored in full; ~90 crafted malformed streams (extreme declared sizes and flag combinations in zstd / snappy / gzip / brotli / lz4 framing) under recover + watchdog; 24 goroutines x 12 concurrent gzip+brotli encodes at shared levels, each stream decoded by the reference decoders. non-trivial = level case outside 1..9 or block with ratio > 10; distinct by case content"
@@ -161,6 +178,7 @@ func runCodecs(seed uint64, n int, tier string, out string, replay string) {
 	}
 	// (c) lz4 blocks vs the model
 	lz4Case := func(block []byte, what string) {
+		lastInput = fmt.Sprintf("lz4 block: %x", block[:min(len(block), 96)])
 		g := guard(func() ([]byte, error) { return compress.Get("").LZ4Decode(block) })
 		if g.panicked || g.hung {
 			sum.ImplViolations = append(sum.ImplViolations, map[string]interface{}{"property": "C12", "kind": "panic-or-hang", "codec": "lz4", "block_hex": fmt.Sprintf("%x", block)})
@@ -257,6 +275,7 @@ func runCodecs(seed uint64, n int, tier string, out string, replay string) {
 					if rnd.Bool() {
 						mut = mut[:rnd.Intn(len(mut))]
 					}
+					lastInput = fmt.Sprintf("mutated %s stream: %x", enc, mut[:min(len(mut), 96)])
 					g := guard(func() ([]byte, error) { return compress.Get("").Decompress(enc, mut) })
 					if g.panicked || g.hung {
 						sum.ImplViolations = append(sum.ImplViolations, map[string]interface{}{"property": "C12", "kind": "panic-or-hang", "codec": enc, "stream_hex": fmt.Sprintf("%x", mut[:min(len(mut), 64)])})
@@ -414,6 +433,7 @@ func runCodecs(seed uint64, n int, tier string, out string, replay string) {
 		}
 		for _, c := range cs {
 			c := c
+			lastInput = fmt.Sprintf("crafted %s stream (%s): %x", c.codec, c.what, c.data[:min(len(c.data), 96)])
 			g := guard(func() ([]byte, error) { return compress.Get("").Decompress(c.codec, c.data) })
 			sum.Count("crafted-malformed:" + c.codec)
 			rt++
